@@ -59,6 +59,32 @@ func maintainerSleeping() bool {
 	return false
 }
 
+// gidAnswered: goroutine id of a query sender -> the datagram it wrote last will be answered
+var gidAnswered *sync.Map
+
+func curGid() string {
+	var buf [64]byte
+	n := runtime.Stack(buf[:], false)
+	f := strings.Fields(string(buf[:n]))
+	if len(f) >= 2 {
+		return f[1]
+	}
+	return ""
+}
+
+// goroutinesInside counts the goroutines with a frame of the given package / function prefix
+func goroutinesInside(prefix string) int {
+	buf := make([]byte, 1<<20)
+	n := runtime.Stack(buf, true)
+	c := 0
+	for _, g := range strings.Split(string(buf[:n]), "\n\n") {
+		if strings.Contains(g, "\n"+prefix) {
+			c++
+		}
+	}
+	return c
+}
+
 func mpNormIPHex(ip net.IP) string {
 	if v4 := ip.To4(); v4 != nil {
 		return hx(v4)
@@ -160,10 +186,21 @@ func runMaintPassCase(seed uint64, k, idx int) {
 		Conn:             conn,
 		NoSecurity:       true,
 		StartingNodes:    func() ([]dht.Addr, error) { return nil, nil },
-		QueryResendDelay: func() time.Duration { return 12 * time.Millisecond },
-		Logger:           log.NewLogger().FilterLevel(log.Critical),
-		SendLimiter:      rate.NewLimiter(rate.Inf, 1),
+		// A query that WILL be answered never waits its resend delay out (the reply cancels the sender), so it gets a long
+		// one: whether "answers" means "answered in time" then does not depend on the machine's load. The sender calls
+		// this right after its WriteTo, in the same goroutine: the write callback below leaves the verdict under the
+		// goroutine's id.
+		QueryResendDelay: func() time.Duration {
+			if v, ok := gidAnswered.Load(curGid()); ok && v.(bool) {
+				return 8 * time.Second
+			}
+			return 12 * time.Millisecond
+		},
+		Logger:      log.NewLogger().FilterLevel(log.Critical),
+		SendLimiter: rate.NewLimiter(rate.Inf, 1),
 	}
+	var gidAnsweredMap sync.Map
+	gidAnswered = &gidAnsweredMap
 	s, err := dht.NewServer(cfg)
 	if err != nil {
 		panic(err)
@@ -196,7 +233,9 @@ func runMaintPassCase(seed uint64, k, idx int) {
 		}
 		mu.Unlock()
 		n := byAddr[to.String()]
-		if n == nil || m.Q != "ping" || !(inSetup || n.answers) {
+		will := n != nil && m.Q == "ping" && (inSetup || n.answers)
+		gidAnswered.Store(curGid(), will)
+		if !will {
 			return
 		}
 		reply := bencode.MustMarshal(krpc.Msg{Y: "r", T: m.T, R: &krpc.Return{ID: n.id}})
@@ -270,6 +309,20 @@ func runMaintPassCase(seed uint64, k, idx int) {
 		oracle("C14", "maintainer-pass-does-not-end", "case=%d pass k=%d: 40 s after TableMaintainer started its goroutine is not in the pause between passes (pending transactions %d)", idx, k, len(s.VerifPending()))
 	}
 	time.Sleep(10 * time.Millisecond)
+	if ended {
+		// the pass is over: the bootstrap and refresh traversals it owned are stopped, nothing of them is left (C14)
+		left := 0
+		for dl := time.Now().Add(3 * time.Second); ; {
+			left = goroutinesInside("github.com/anacrolix/dht/v2/traversal.")
+			if left == 0 || time.Now().After(dl) {
+				break
+			}
+			time.Sleep(5 * time.Millisecond)
+		}
+		if left > 0 {
+			oracle("C14", "maintainer-left-traversal-running", "case=%d pass k=%d: %d goroutines inside the traversal package while the maintainer pauses between passes", idx, k, left)
+		}
+	}
 	mu.Lock()
 	log2 := append([]wr(nil), wlog...)
 	mu.Unlock()
